@@ -4,6 +4,7 @@ import (
 	"bytes"
 	"fmt"
 	"io"
+	"reflect"
 
 	"github.com/google/gce-tcb-verifier/eventlog"
 	"github.com/google/uuid"
@@ -27,6 +28,27 @@ type stream struct {
 	same   func(c codec) (bool, string)
 	toEOF  bool // the decoder reads to the end of input (log)
 	padded bool // encodings may carry documented zero padding inside (event data)
+	// another returns one more in-range value of the structure (a freshly built repository value) and
+	// its reference encoding: the earlier contents of a reused receiver / value object.
+	another func() (codec, []byte)
+}
+
+// judgeLogAppendOnReuse: CryptoAgileLog.Unmarshal appends the events it reads to cel.Events, so a
+// log decoded into a value that already holds events comes out as the old events followed by the new
+// ones. Whether "decoding the encoding yields the same value" covers a receiver whose event list the
+// caller did not clear is not settled by the property text for an appending reader, so this one
+// behaviour is counted and noted; the receiver's event list is cleared by the harness (as a caller
+// aware of the appending would) and everything else about the reused receiver is judged.
+const judgeLogAppendOnReuse = false
+
+// assign overwrites the value object *dst with the contents of *src (same pointer type).
+func assign(dst, src codec) bool {
+	d, s := reflect.ValueOf(dst), reflect.ValueOf(src)
+	if d.Kind() != reflect.Pointer || s.Kind() != reflect.Pointer || d.Type() != s.Type() || d.IsNil() || s.IsNil() {
+		return false
+	}
+	d.Elem().Set(s.Elem())
+	return true
 }
 
 func (s stream) eUn() string { return "eventlog." + s.name + ".Unmarshal" }
@@ -138,6 +160,46 @@ func checkStream(q *x, s stream, val codec, want []byte) {
 			}
 		}
 	}
+	// 1c. call sequences on the encoder: a reused value object first holding this value, then overwritten
+	//     in place with another value, then the case's own value object once more. Every encoding must be
+	//     the one of the value the object holds at the time of the call.
+	if s.another != nil {
+		seqWitness := func(step string, got, ref []byte) map[string]any {
+			return map[string]any{"step": step, "encoded": hx(got), "reference_encoding": hx(ref)}
+		}
+		marshal := func(o codec) ([]byte, error, bool) {
+			var b bytes.Buffer
+			var e error
+			ok := q.must(s.eMa(), func() { e = o.Marshal(&b) })
+			return b.Bytes(), e, ok
+		}
+		obj := s.fresh()
+		if assign(obj, val) {
+			good := true
+			if b1, e1, ok := marshal(obj); ok && (e1 != nil || !bytes.Equal(b1, enc.Bytes())) {
+				good = false
+				q.viol(s.eMa(), "encoding-depends-on-earlier-calls", seqWitness("a second value object with the same contents", b1, enc.Bytes()),
+					"%s: a second value object with the same contents encodes as %s (err=%v), the first gave %s", s.name, hx(b1), e1, hx(enc.Bytes()))
+			}
+			ov, oenc := s.another()
+			if assign(obj, ov) {
+				if b2, e2, ok := marshal(obj); ok && (e2 != nil || !bytes.Equal(b2, oenc)) {
+					good = false
+					q.viol(s.eMa(), "encoding-depends-on-earlier-calls", seqWitness("value object encoded, overwritten in place with another value, encoded again", b2, oenc),
+						"%s: a value object that was encoded once and then overwritten in place with another value encodes as %s (err=%v); the layout of the value it holds gives %s", s.name, hx(b2), e2, hx(oenc))
+				}
+			}
+			if b3, e3, ok := marshal(val); ok && (e3 != nil || !bytes.Equal(b3, enc.Bytes())) {
+				good = false
+				q.viol(s.eMa(), "encoding-depends-on-earlier-calls", seqWitness("the same unchanged value encoded a second time after other encodings", b3, enc.Bytes()),
+					"%s: the same unchanged value encodes as %s the first time and as %s (err=%v) after other values were encoded", s.name, hx(enc.Bytes()), hx(b3), e3)
+			}
+			if good {
+				seen("encoding-independent-of-earlier-calls")
+				c.Cell("%s|value object reused for another value, then the first value again|each encoding is the held value's", s.name)
+			}
+		}
+	}
 	// 2. decode inverts encode, with exactly the encoding consumed, through the three reader kinds,
 	//    with and without bytes following the encoding
 	readers := 0
@@ -187,6 +249,65 @@ func checkStream(q *x, s stream, val codec, want []byte) {
 	}
 	if readers == 7 {
 		seen("stream-readers-all-three")
+	}
+	// 2b. the same through a receiver that is not fresh: it decoded another encoding before, or the caller
+	//     built it holding another value. What it held before must not show in the result.
+	if s.another != nil {
+		for kind := rdBuffer; kind <= rdFile; kind++ {
+			ov, oenc := s.another()
+			d, how := ov, "a receiver the caller built holding another value"
+			if q.r.IntN(3) != 0 {
+				d, how = s.fresh(), "a receiver that decoded another encoding before"
+				r0, _, ok := q.open(kind, oenc)
+				if !ok {
+					continue
+				}
+				var e0 error
+				if q.try(func() { e0 = d.Unmarshal(r0) }) || e0 != nil {
+					c.Count("used-receiver-setup-refused/"+s.name, 1) // judged by that value's own case
+					continue
+				}
+			}
+			if l, ok := d.(*eventlog.CryptoAgileLog); ok && !judgeLogAppendOnReuse {
+				if held := len(l.Events); held > 0 {
+					cp := &eventlog.CryptoAgileLog{Header: l.Header, Events: append([]*eventlog.TCGPCREvent2(nil), l.Events...)}
+					if r1, _, ok := q.open(rdReader, want); ok {
+						var e1 error
+						if !q.try(func() { e1 = cp.Unmarshal(r1) }) && e1 == nil {
+							if sameOK, _ := s.same(cp); !sameOK {
+								c.Count("unjudged/CryptoAgileLog.Unmarshal into a log that already holds events keeps them in front of the decoded ones", 1)
+								c.Note("CryptoAgileLog.Unmarshal appends to cel.Events without clearing it: decoding into a log value that already holds N events yields those N events followed by the decoded ones (re-encoding gives more bytes than were accepted); counted, not judged (const judgeLogAppendOnReuse) - the harness clears Events itself before judging a reused log receiver")
+							}
+						}
+					}
+				}
+				l.Events = nil
+			}
+			r, left, ok := q.open(kind, want)
+			if !ok {
+				continue
+			}
+			var err error
+			if !q.must(s.eUn(), func() { err = d.Unmarshal(r) }) {
+				continue
+			}
+			wit := map[string]any{"input": hx(want), "receiver": how, "receiver_held_encoding": hx(oenc), "reader": rdNames[kind]}
+			if err != nil {
+				q.viol(s.eUn(), "valid-encoding-refused", wit, "%s: decoder refuses its own encoding %s (%d bytes) read from a %s into %s: %v", s.name, hx(want), len(want), rdNames[kind], how, err)
+				continue
+			}
+			if got := len(want) - left(); got != len(want) {
+				q.viol(s.eUn(), "consumed-length-differs-from-abi", wit, "%s: decoder consumed %d bytes of a %d-byte encoding (into %s, %s)", s.name, got, len(want), how, rdNames[kind])
+				continue
+			}
+			q.accepted(s, "own encoding into "+how, want, len(want), d, kind)
+			if ok, why := s.same(d); !ok {
+				q.viol(s.eUn(), "decoded-value-depends-on-receiver", wit, "%s: decode(encode(v)) != v when decoding into %s (which held the value encoded as %s): %s", s.name, how, hx(oenc), why)
+				continue
+			}
+			seen("decode-into-used-receiver-inverts-encode")
+			c.Cell("%s|decode(encode) into %s|same value, exact length", s.name, how)
+		}
 	}
 	// 3. every truncation, through bytes.Buffer and bytes.Reader; a sample through the file
 	cuts := q.shorter(len(want))
@@ -487,6 +608,12 @@ func caseCStr(q *x) {
 		same: func(c codec) (bool, string) {
 			g := c.(*eventlog.ByteSizedCStr).Data
 			return g == v, fmt.Sprintf("%q decoded as %q", v, g)
+		},
+		another: func() (codec, []byte) {
+			o := rstr(q, 254)
+			oe := &tcgref.Enc{}
+			oe.CStr(o)
+			return &eventlog.ByteSizedCStr{Data: o}, oe.B
 		}}
 	checkStream(q, s, &eventlog.ByteSizedCStr{Data: v}, e.B)
 	// out-of-range: a string whose size with terminator does not fit the UINT8 size
@@ -510,6 +637,12 @@ func caseArr32(q *x) {
 		same: func(c codec) (bool, string) {
 			g := c.(*eventlog.Uint32SizedArray).Data
 			return bytes.Equal(g, v), fmt.Sprintf("%x decoded as %x", v, g)
+		},
+		another: func() (codec, []byte) {
+			o := rarr(q)
+			oe := &tcgref.Enc{}
+			oe.Arr32(o)
+			return &eventlog.Uint32SizedArray{Data: o}, oe.B
 		}}
 	checkStream(q, s, &eventlog.Uint32SizedArray{Data: v}, e.B)
 }
@@ -523,6 +656,12 @@ func caseEfiGUIDStream(q *x) {
 		same: func(c codec) (bool, string) {
 			u := c.(*eventlog.EfiGUID).UUID
 			return [16]byte(u) == [16]byte(g), fmt.Sprintf("%x decoded as %x", g, u)
+		},
+		another: func() (codec, []byte) {
+			o := rguid(q.r)
+			oe := &tcgref.Enc{}
+			oe.GUID(o)
+			return &eventlog.EfiGUID{UUID: uuid.UUID(o)}, oe.B
 		}}
 	checkStream(q, s, &eventlog.EfiGUID{UUID: uuid.UUID(g)}, e.B)
 }
@@ -535,6 +674,12 @@ func caseDigest(q *x) {
 		canon: canonOf(func(d *tcgref.Dec, e *tcgref.Enc) { e.Digest(d.Digest()) }),
 		same: func(c codec) (bool, string) {
 			return sameDigests([]*eventlog.TaggedDigest{c.(*eventlog.TaggedDigest)}, []tcgref.Digest{v})
+		},
+		another: func() (codec, []byte) {
+			o := randDigest(q)
+			oe := &tcgref.Enc{}
+			oe.Digest(o)
+			return &eventlog.TaggedDigest{AlgID: o.Alg, Digest: o.Data}, oe.B
 		}}
 	checkStream(q, s, &eventlog.TaggedDigest{AlgID: v.Alg, Digest: v.Data}, e.B)
 	// out-of-range: digest length that is not the algorithm's, unknown algorithm
@@ -568,6 +713,16 @@ func caseDigests(q *x) {
 		canon: canonOf(func(d *tcgref.Dec, e *tcgref.Enc) { e.Digests(d.Digests()) }),
 		same: func(c codec) (bool, string) {
 			return sameDigests(c.(*eventlog.Uint32SizedArrayT[*eventlog.TaggedDigest]).Array, v)
+		},
+		another: func() (codec, []byte) {
+			var o []tcgref.Digest
+			for k := q.r.IntN(5); k > 0; k-- {
+				o = append(o, randDigest(q))
+			}
+			oe := &tcgref.Enc{}
+			oe.Digests(o)
+			ro := repoDigests(o)
+			return &ro, oe.B
 		}}
 	checkStream(q, s, &rv, e.B)
 }
@@ -578,7 +733,13 @@ func caseEventData(q *x) {
 	e.Arr32(raw)
 	s := stream{name: "TCGEventData", padded: true, fresh: func() codec { return &eventlog.TCGEventData{} },
 		canon: canonOf(func(d *tcgref.Dec, e *tcgref.Enc) { e.Arr32(normData(d, d.Arr32())) }),
-		same:  func(c codec) (bool, string) { return sameEventData(c.(*eventlog.TCGEventData), raw) }}
+		same:  func(c codec) (bool, string) { return sameEventData(c.(*eventlog.TCGEventData), raw) },
+		another: func() (codec, []byte) {
+			oraw, oed := randEventData(q)
+			oe := &tcgref.Enc{}
+			oe.Arr32(oraw)
+			return &oed, oe.B
+		}}
 	checkStream(q, s, &ed, e.B)
 }
 
@@ -592,7 +753,13 @@ func casePCEvent(q *x) {
 			p.Data = normData(d, p.Data)
 			e.PCEvent(p)
 		}),
-		same: func(c codec) (bool, string) { return samePCEvent(c.(*eventlog.TCGPCClientPCREvent), v) }}
+		same: func(c codec) (bool, string) { return samePCEvent(c.(*eventlog.TCGPCClientPCREvent), v) },
+		another: func() (codec, []byte) {
+			o, ro := randPCEvent(q)
+			oe := &tcgref.Enc{}
+			oe.PCEvent(o)
+			return ro, oe.B
+		}}
 	checkStream(q, s, rv, e.B)
 }
 
@@ -626,11 +793,17 @@ func caseEvent2(q *x) {
 			p.Data = normData(d, p.Data)
 			e.Event2(p)
 		}),
-		same: func(c codec) (bool, string) { return sameEvent2(c.(*eventlog.TCGPCREvent2), v) }}
+		same: func(c codec) (bool, string) { return sameEvent2(c.(*eventlog.TCGPCREvent2), v) },
+		another: func() (codec, []byte) {
+			o, ro := randEvent2(q)
+			oe := &tcgref.Enc{}
+			oe.Event2(o)
+			return ro, oe.B
+		}}
 	checkStream(q, s, rv, e.B)
 }
 
-func caseLog(q *x) {
+func randLog(q *x) (tcgref.Log, *eventlog.CryptoAgileLog) {
 	hv, hr := randPCEvent(q)
 	l := tcgref.Log{Header: hv}
 	rl := &eventlog.CryptoAgileLog{Header: *hr}
@@ -642,6 +815,11 @@ func caseLog(q *x) {
 	if q.r.IntN(12) == 0 {
 		l.Events, rl.Events = nil, nil
 	}
+	return l, rl
+}
+
+func caseLog(q *x) {
+	l, rl := randLog(q)
 	e := &tcgref.Enc{}
 	e.Log(l)
 	s := stream{name: "CryptoAgileLog", padded: true, toEOF: true, fresh: func() codec { return &eventlog.CryptoAgileLog{} },
@@ -667,6 +845,12 @@ func caseLog(q *x) {
 				}
 			}
 			return true, ""
+		},
+		another: func() (codec, []byte) {
+			o, ro := randLog(q)
+			oe := &tcgref.Enc{}
+			oe.Log(o)
+			return ro, oe.B
 		}}
 	checkStream(q, s, rl, e.B)
 	// a partial record behind the last event is not the end of the log
@@ -786,6 +970,65 @@ func caseEvt3(q *x) {
 			c.Cell("SP800155Event3|own encoding + zero padding|same value")
 		} else {
 			c.Cell("SP800155Event3|decode(encode)|same value")
+		}
+	}
+	// a receiver that is not fresh: it decoded another event before, or the caller built it holding one
+	for k := 0; k < 2; k++ {
+		ov := randEvt3(q)
+		obody := tcgref.Evt3Bytes(ov)[16:]
+		d, how := repoEvt3(ov), "a receiver the caller built holding another event"
+		if k == 0 {
+			d, how = &eventlog.SP800155Event3{}, "a receiver that decoded another event before"
+			var e0 error
+			if q.try(func() { e0 = d.UnmarshalFromBytes(obody) }) || e0 != nil {
+				c.Count("used-receiver-setup-refused/SP800155Event3", 1)
+				continue
+			}
+		}
+		in := append(append([]byte{}, body...), make([]byte, q.r.IntN(2)*(1+q.r.IntN(8)))...)
+		if !q.must(eUn, func() { err = d.UnmarshalFromBytes(in) }) {
+			continue
+		}
+		wit := map[string]any{"input": hx(in), "receiver": how, "receiver_held_encoding": hx(obody)}
+		if err != nil {
+			q.viol(eUn, "valid-encoding-refused", wit, "SP800155Event3 refuses its own encoding when decoding into %s: %v", how, err)
+			continue
+		}
+		accepted("own encoding into "+how, in, d)
+		if ok, f := tcgref.EqualEvt3(fromRepoEvt3(d), v); !ok {
+			q.viol(eUn, "decoded-value-depends-on-receiver", wit, "SP800155Event3: decode(encode(v)) differs in %s when decoding into %s (which held the event encoded as %s)", f, how, hx(obody))
+			continue
+		}
+		seen("decode-into-used-receiver-inverts-encode")
+		c.Cell("SP800155Event3|decode(encode) into %s|same value", how)
+	}
+	// the encoder on a reused value object: overwritten in place with another event, then this one again
+	{
+		ov := randEvt3(q)
+		owant := tcgref.Evt3Bytes(ov)
+		obj := repoEvt3(v)
+		good := true
+		for step, w := range [][]byte{want, owant, want} {
+			if step == 1 {
+				*obj = *repoEvt3(ov)
+			} else if step == 2 {
+				*obj = *rv
+			}
+			var b []byte
+			var e error
+			if !q.must(eMa, func() { b, e = obj.MarshalToBytes() }) {
+				good = false
+				break
+			}
+			if e != nil || !bytes.Equal(b, w) {
+				good = false
+				q.viol(eMa, "encoding-depends-on-earlier-calls", map[string]any{"step": step, "encoded": hx(b), "reference_encoding": hx(w)},
+					"SP800155Event3: a value object encoded, overwritten in place with another event and encoded again gives %s (err=%v) at step %d; the layout of the event it holds gives %s", hx(b), e, step, hx(w))
+			}
+		}
+		if good {
+			seen("encoding-independent-of-earlier-calls")
+			c.Cell("SP800155Event3|value object reused for another event, then the first again|each encoding is the held value's")
 		}
 	}
 	// non-zero padding is not padding
